@@ -483,6 +483,9 @@ class SymNum(object):
     def __bool__(self):
         return CTX.decide(self.e != 0)
 
+    def is_integer(self):
+        return SymBool(z3.IsInt(self.e))
+
     def __index__(self):
         if self.kind != 'i':
             raise TypeError("'float' object cannot be interpreted as an integer")
